@@ -98,44 +98,47 @@ proof! {
     }
 }
 
-// Two move orders reaching the same position hash equal: white knight A, black king, white knight B
-// versus B, king, A (real successor function; seeded key table — the all-tables claim is carried by
-// `equal_positions_hash_equal`, an arbitrary table with six symbolic lookups per hash is what fits).
+// A position reached by play and the same position set up from scratch (with other move counters)
+// hash equal: real successor function twice (white knight move, black king step), seeded key table —
+// the all-tables claim is carried by `equal_positions_hash_equal`.
 proof! {
-    fn transposition_hashes_equal() {
+    fn reached_and_constructed_hash_equal() {
         let hasher = seeded_hasher(0);
-        let sqs: [u8; 8] = kani::any();
-        // wk, bk, knight a from/to, knight b from/to, black king destination
-        let (wk, bk, af, at, bf, bt, kt) = (sqs[0], sqs[1], sqs[2], sqs[3], sqs[4], sqs[5], sqs[6]);
-        kani::assume(wk < 64 && bk < 64 && af < 64 && at < 64 && bf < 64 && bt < 64 && kt < 64);
-        let all = [wk, bk, af, at, bf, bt, kt];
-        // all seven squares distinct
+        let sqs: [u8; 5] = kani::any();
+        // wk, bk, knight from/to, black king destination
+        let (wk, bk, nf, nt, kt) = (sqs[0], sqs[1], sqs[2], sqs[3], sqs[4]);
+        kani::assume(wk < 64 && bk < 64 && nf < 64 && nt < 64 && kt < 64);
+        let all = [wk, bk, nf, nt, kt];
         let mut seen = 0u64;
         let mut distinct = true;
         let mut i = 0;
-        while i < 7 {
+        while i < 5 {
             distinct = distinct && seen & bit(all[i]) == 0;
             seen |= bit(all[i]);
             i += 1;
         }
         kani::assume(distinct);
-        kani::assume(geo_knight(af) & bit(at) != 0 && geo_knight(bf) & bit(bt) != 0 && geo_king(bk) & bit(kt) != 0);
+        kani::assume(geo_knight(nf) & bit(nt) != 0 && geo_king(bk) & bit(kt) != 0);
         let mut bb = [[0u64; 6]; 2];
         bb[0][K] = bit(wk);
         bb[1][K] = bit(bk);
-        bb[0][N] = bit(af) | bit(bf);
+        bb[0][N] = bit(nf);
         let p = Pos { bb, wtm: true, rights: [false; 4], ep: NO_SQ, half: kani::any::<u32>() as u64, full: kani::any::<u32>() as u64 };
-        print_pos("c08 transposition", &p);
-        println!("CASE {{\"harness\":\"c08 transposition\",\"squares\":{:?}}}", all);
+        print_pos("c08 reached_and_constructed", &p);
+        println!("CASE {{\"harness\":\"c08 reached_and_constructed\",\"squares\":{:?}}}", all);
         let s = to_state(&p);
-        let wn = pi(0, 2);
-        let a = Move::by_moving(wn, sq(af), sq(at));
-        let b = Move::by_moving(wn, sq(bf), sq(bt));
+        let a = Move::by_moving(pi(0, 2), sq(nf), sq(nt));
         let k = Move::by_moving(pi(1, 6), sq(bk), sq(kt));
-        let via_ab = State::by_performing_move(&State::by_performing_move(&State::by_performing_move(&s, &a).unwrap(), &k).unwrap(), &b).unwrap();
-        let via_ba = State::by_performing_move(&State::by_performing_move(&State::by_performing_move(&s, &b).unwrap(), &k).unwrap(), &a).unwrap();
-        assert!(from_state(&via_ab) == from_state(&via_ba), "both orders reach the same position");
-        assert!(hasher.hash(&via_ab) == hasher.hash(&via_ba), "transposing move orders hash equal");
+        let reached = State::by_performing_move(&State::by_performing_move(&s, &a).unwrap(), &k).unwrap();
+        let mut fb = [[0u64; 6]; 2];
+        fb[0][K] = bit(wk);
+        fb[1][K] = bit(kt);
+        fb[0][N] = bit(nt);
+        let built = Pos { bb: fb, wtm: true, rights: [false; 4], ep: NO_SQ, half: kani::any::<u32>() as u64, full: kani::any::<u32>() as u64 };
+        let r = from_state(&reached);
+        assert!(r.bb == built.bb && r.wtm == built.wtm && r.rights == built.rights && r.ep == built.ep, "play reaches the position that was set up");
+        assert!(hasher.hash(&reached) == hasher.hash(&to_state(&built)), "a position hashes the same however it was reached and whatever its counters are");
+        kani::cover!(r.half != built.half, "counters differ");
     }
 }
 
